@@ -344,6 +344,79 @@ def run(ctx):
     if callers != ["StateMachine::continue_from_bookmark"]:
         r.violate("setter|callers", f"set_last_start_tag_name_hash is called from {callers}; only the bookmark restore may set it", None)
 
+    # ------------------------------------------------------------------ R03.6
+    r = ctx.rule("R03.6", "the lexer's actions have the meaning the product exploration assumes: every finish_*/mark action records the half-open range [token_part_start, pos) in its own token part, start_token_part records pos(), flags are set to true, attributes are created/pushed for start tags only", "E-MIR shape table", floor=12)
+    RANGE = re.compile(r"^(base::range::)?Range\{self\.token_part_start, \(self\.next_pos Sub(WithOverflow)? const 1_usize: usize\)(\.0)?\}$")
+    def writes(fn):
+        f = mir.fn(f"Lexer::{fn}[StateMachineActions]")
+        out = []
+        for b in f.blocks:
+            for st in b["stmts"]:
+                if st["k"] == "assign" and st["p"]["proj"]:
+                    tgt = f._root_place_p(st["p"])
+                    parts = [(e["of"].split("::")[-1] + "." + e["f"]) if isinstance(e, dict) and "f" in e else (e.get("variant") if isinstance(e, dict) else e) for e in tgt[1]]
+                    rv = st["rv"]
+                    if rv["k"] == "use":
+                        d = f.deep(rv["o"])
+                    elif rv["k"] == "agg":
+                        d = (rv["name"] or rv["what"]) + "{" + ", ".join(f.deep(o) for o in rv["ops"]) + "}"
+                    else:
+                        d = rv["k"]
+                    fields = [x for x in parts if isinstance(x, str) and "." in x]
+                    out.append((f.name_of(tgt[0]) or str(tgt[0]), fields, d))
+        return f, out
+    SEM = {
+        "finish_tag_name": [("name", None, "RANGE")],
+        "finish_attr_name": [("AttributeOutline.name", None, "RANGE")],
+        "finish_attr_value": [("AttributeOutline.value", None, "RANGE")],
+        "mark_comment_text_end": [("Comment.0", None, "RANGE")],
+        "finish_doctype_name": [("DoctypeTokenOutline.name", None, "SOME_RANGE")],
+        "finish_doctype_public_id": [("DoctypeTokenOutline.public_id", None, "SOME_RANGE")],
+        "finish_doctype_system_id": [("DoctypeTokenOutline.system_id", None, "SOME_RANGE")],
+        "set_force_quirks": [("DoctypeTokenOutline.force_quirks", None, "TRUE")],
+        "mark_as_self_closing": [("StartTag.self_closing", None, "TRUE")],
+        "start_token_part": [("Lexer.token_part_start", None, "POS")],
+        "shift_comment_text_end_by": [("Range.end", "Comment.0", "END_PLUS_OFFSET")],
+    }
+    for fn, wants in SEM.items():
+        f, ws = writes(fn)
+        for (field, via, shape) in wants:
+            key = f"{fn}|{field}"
+            hits = [w for w in ws if (w[1] and w[1][-1] == field and (via is None or via in w[1])) or (not w[1] and w[0] == field)]
+            r.inst(key, sample={"action": fn, "writes": [(w[0], w[1][-2:], w[2][:90]) for w in ws]})
+            ok = False
+            for w in hits:
+                d = w[2]
+                if shape == "RANGE":
+                    ok = ok or bool(RANGE.match(d))
+                elif shape == "SOME_RANGE":
+                    m_ = re.match(r"^std::option::Option::Some\{(.*)\}$", d)
+                    ok = ok or bool(m_ and RANGE.match(m_.group(1)))
+                elif shape == "TRUE":
+                    ok = ok or d.startswith("const true")
+                elif shape == "POS":
+                    ok = ok or ("pos" in d and "self" in d)
+                elif shape == "END_PLUS_OFFSET":
+                    ok = ok or ("Add" in d and "offset" in d and ".end" in d)
+            if not ok:
+                r.violate(key, f"Lexer::{fn} no longer records {field} as {shape} (writes: {[(w[1][-1:] , w[2][:80]) for w in ws]}): the token part would cover other bytes than the tokenizer states intend", f.loc())
+    f, ws = writes("start_attr")
+    calls = [callee_key(t) for bi, t in f.calls()]
+    r.inst("start_attr", sample={"calls": calls})
+    sw = [bi for bi, b in enumerate(f.blocks) if b["term"]["k"] == "switch" and "current_tag_token" in f.describe_operand(b["term"]["d"])]
+    if not any("start_token_part" in c for c in calls) or not any(w[1] and w[1][-1] == "Lexer.current_attr" for w in ws) or not sw:
+        r.violate("start_attr", "Lexer::start_attr must (for start tags only) open a fresh attribute and record the name start", f.loc())
+    f, ws = writes("finish_attr")
+    calls = [callee_key(t) for bi, t in f.calls()]
+    r.inst("finish_attr", sample={"calls": calls})
+    if "Option::take" not in calls or "Vec::push" not in calls:
+        r.violate("finish_attr", "Lexer::finish_attr must take the open attribute and push it to the start tag's attribute list", f.loc())
+    for fn, var in (("create_start_tag", "StartTag"), ("create_end_tag", "EndTag")):
+        f, ws = writes(fn)
+        r.inst(fn)
+        if not any(w[1] and w[1][-1] == "Lexer.current_tag_token" and var in w[2] for w in ws):
+            r.violate(fn, f"Lexer::{fn} does not create a fresh {var} outline", f.loc())
+
     ctx.not_decided += ["tree-builder simulation beyond the tables (arbitrary mis-nesting in foreign content)", "hash collisions of LocalNameHash", "full token-boundary equivalence with the WHATWG tokenizer is rule R03.1 (product exploration), reported separately when present"]
     return ("Automaton-level dataflow of the text type over all %d states (every literal transition into a text state and every tag emission), "
             "complete decision tables of the tag predicates and of the ambiguity guard obtained by finite-domain abstract interpretation of the "
